@@ -94,10 +94,12 @@ func (fx *fctx) callExternal(st *State, fn *types.Func, recv *Value, recvExpr as
 		return nil
 	case "encoding/json.Unmarshal":
 		// writes through the target pointer
+		res := results()
 		if len(ce.Args) == 2 {
 			fx.havocPointee(st, ce.Args[1], args[1])
+			fx.assumeUnmarshaler(st, ce.Args[1], args[1], res[0])
 		}
-		return results()
+		return res
 	}
 	// methods with pointer receivers on opaque locals mutate the local handle
 	if recvExpr != nil {
@@ -136,7 +138,29 @@ func (fx *fctx) havocPointee(st *State, arg ast.Expr, val *Value) {
 		return
 	}
 	nv := e.havocValue(st, p.Elem(), "ext")
-	e.storeCell(st, "", val.Tm, p.Elem(), nv)
+	addr := val.Tm
+	if addr.Sort == SAny {
+		// the pointer was passed as an interface value
+		addr = e.ts.App("any_raddr", SInt, addr)
+	}
+	// slices filled by external code are not trusted to satisfy the element discipline of the package
+	var mark func(v *Value)
+	mark = func(v *Value) {
+		if v == nil {
+			return
+		}
+		if v.Sl != nil {
+			if fx.madeSlices == nil {
+				fx.madeSlices = map[int]bool{}
+			}
+			fx.madeSlices[v.Sl.Ptr.id] = true
+		}
+		for _, f := range v.St {
+			mark(f)
+		}
+	}
+	mark(nv)
+	e.storeCell(st, "", addr, p.Elem(), nv)
 }
 
 // modelSortSlice: assumed contract of sort.Slice for integer slices and the two comparator shapes used in the package.
@@ -216,4 +240,44 @@ func constantString(v constant.Value) string {
 		return constant.StringVal(v)
 	}
 	return ""
+}
+
+// assumeUnmarshaler: json.Unmarshal into *T where T has an UnmarshalJSON method under contract in this package
+// behaves like that method on the target (its postconditions are assumed for the call's error result).
+func (fx *fctx) assumeUnmarshaler(st *State, arg ast.Expr, val *Value, errv *Value) {
+	e := fx.e
+	t := e.P.Info.TypeOf(arg)
+	p, ok := t.Underlying().(*types.Pointer)
+	if !ok {
+		return
+	}
+	ms := types.NewMethodSet(t)
+	sel := ms.Lookup(e.P.Pkg.Types, "UnmarshalJSON")
+	if sel == nil {
+		return
+	}
+	fn, _ := sel.Obj().(*types.Func)
+	fi := e.P.FuncByObj[fn]
+	if fi == nil {
+		return
+	}
+	con := e.P.CF.Contracts[fi.Key]
+	if con == nil {
+		return
+	}
+	addr := val.Tm
+	if addr.Sort == SAny {
+		addr = e.ts.App("any_raddr", SInt, addr)
+	}
+	sig := fn.Type().(*types.Signature)
+	bind := map[string]*Value{"result": errv, "result0": errv}
+	if sig.Recv() != nil && sig.Recv().Name() != "" {
+		bind[sig.Recv().Name()] = &Value{T: t, Tm: addr}
+	}
+	pre := st.clone()
+	for _, cl := range con.Ensures {
+		st.assume(fx.evalClause(st, pre, cl, bind))
+	}
+	_ = p
+	e.Assumptions["encoding/json.Unmarshal into a type with UnmarshalJSON behaves like that method (its contract is assumed for the target)"] = true
 }
